@@ -7,6 +7,39 @@ TB = ('Trusted base: rustc MIR construction and layout; tools/mirfacts exporter;
       '(intervals x known-bits, self-tested against Python integers); reference tables in gbsa/. ')
 
 CHECKS = {
+ 'C10': dict(
+    technique='address-ladder partition extraction by path-sensitive abstract interpretation (intervals, known bits, affine equality)',
+    text='Decides over all 65536 addresses (by intervals), for every controller type: the read and write ladders '
+         'partition the address space exactly at the hardware region bounds with the documented handler per region; '
+         'read and write of every RAM region address the same cell; index functions are injective per region and '
+         'regions sharing a buffer have disjoint index sets (single-address exceptions included); no store to ROM is '
+         'reachable through the bus; the fetch view equals the data view in ROM / work RAM / high RAM; unmapped regions '
+         'read constant and ignore writes; each readable I/O register returns its defined writable bits after a write '
+         '(set_byte then get_byte on the resulting abstract state).',
+    note=TB + 'Uses field invariants vram_bank = 0, wram_bank = 1 and MBC register ranges (joined over every store in '
+         'the crate). Buffer bounds are C11, controller semantics C12.',
+    ref='DESIGN.md#c10'),
+ 'C11': dict(
+    technique='panic-obligation discharge by abstract interpretation per header configuration (216 configurations enumerated from the code)',
+    text='Decides panic freedom of the bus helpers: every bounds / overflow / division assert and panicking call '
+         'reachable from memory_read_byte / memory_write_byte (devices and controller methods inlined) and the word '
+         'helpers is an obligation, discharged for every (controller type, ROM bank count, RAM size) that '
+         'create_cart_state / the size tables can produce - the configuration space is extracted from the code by '
+         'constant propagation over all 256 values of each header byte.',
+    note=TB + 'Overflow asserts as in the dev/test profile. Null/misalignment checks inserted by rustc on references are '
+         'skipped. create_buffer(n) has length n (structurally checked). std stdout write/flush return Result.',
+    ref='DESIGN.md#c11'),
+ 'C12': dict(
+    technique='abstract interpretation of every CartState impl: per-write register update table + register->bank function',
+    text='Decides: write_rom partitions 0x0000-0x7fff into the four register windows, each storing value & mask into '
+         'its own register only (ROM-only: nothing); get_rom_bank never yields 0 on any path; MBC1 mode-0 bank = '
+         '(ram_bank<<5)|low and RAM bank = ram_bank iff mode 1; bank-derived indices are inside the buffers at all '
+         'four use sites for all 216 header configurations; bank 0 is fixed at 0x0000-0x3fff; the two header tables '
+         'agree on controller families. Because each register is overwritten by a write, the per-write table decides '
+         'all write histories.',
+    note=TB + 'RAM-enable gating is outside the statement. In MBC1 mode 1 both conventions for the upper ROM bank bits '
+         'are accepted.',
+    ref='DESIGN.md#c12'),
  'C01': dict(
     technique='per-opcode abstract interpretation of Emitter::encode_op (template sequence + emitted bytes) vs interpreter summaries',
     text='Decides, for all 500 defined encodings and both outcomes of conditional forms, agreement between the '
